@@ -387,6 +387,37 @@ def search_meta(job):
     return {"failures": out, "tried": tried}
 
 
+def suite_sanity(job):
+    """the executable spec against the official JSON-Schema-Test-Suite shipped under <root>/json
+    (reference-free, format-free cases): a check of OUR transcription of the drafts, not of the code"""
+    import glob
+    import os
+    root = job["root"]
+    sys.path.insert(0, root)
+    from spec import drafts
+    from spec.pyops import PyOps
+    out, tried, skipped = [], 0, 0
+    for d in (3, 4, 6, 7):
+        meta = json.load(open(root + "/jsonschema/schemas/draft%d.json" % d))
+        for f in sorted(glob.glob(os.path.join(root, "json", "tests", "draft%d" % d, "*.json"))):
+            name = os.path.basename(f)
+            for case in json.load(open(f)):
+                sch = case["schema"]
+                if has_ref(sch) or name == "format.json":
+                    skipped += len(case["tests"])
+                    continue
+                o = PyOps(d, meta_root=meta)
+                for t in case["tests"]:
+                    tried += 1
+                    got = bool(drafts.V_concrete_schema(o, sch, t["data"]))
+                    if got != t["valid"]:
+                        if not exact_multiple_domain(sch, t["data"]):
+                            continue      # inexact float multipleOf: outside C09's sub-domain
+                        out.append({"kind": "SPEC", "draft": d, "file": name, "case": case["description"], "test": t["description"],
+                                    "spec_says": got, "suite_says": t["valid"]})
+    return {"failures": out[:5], "tried": tried, "skipped": skipped}
+
+
 def replay_meta(job):
     root = job["root"]
     jsonschema, validators = _load(root)
@@ -436,7 +467,7 @@ def replay(job):
 
 def main():
     job = json.load(sys.stdin)
-    res = {"search": search, "replay": replay, "search_pairs": search_pairs, "search_meta": search_meta}[job["cmd"]](job)
+    res = {"search": search, "replay": replay, "search_pairs": search_pairs, "search_meta": search_meta, "suite_sanity": suite_sanity}[job["cmd"]](job)
     json.dump(res, sys.stdout)
 
 
